@@ -682,18 +682,48 @@ pub fn fmt_exec_error(e: &ExecutionError) -> String {
     }
 }
 
-struct Built {
-    simu: Option<Simulation>,
-    scheduler: Option<Scheduler>,
-    addrs: Vec<Option<Address<Node>>>,
-    chan_ids: Vec<usize>,
-    orphan_boxes: Vec<Mailbox<Node>>,
-    buffers: Vec<Option<EventBuffer<Msg>>>,
-    slots: Vec<Option<EventSlot<Msg>>>,
-    sources: Vec<EventSource<Msg>>,
-    qsources: Vec<QuerySource<Msg, Reply>>,
-    drv_keys: Vec<Option<(ActionKey, u64)>>,
-    drv_autos: Vec<Option<(AutoActionKey, u64)>>,
+pub struct Built {
+    pub simu: Option<Simulation>,
+    pub scheduler: Option<Scheduler>,
+    pub addrs: Vec<Option<Address<Node>>>,
+    pub chan_ids: Vec<usize>,
+    pub orphan_boxes: Vec<Mailbox<Node>>,
+    pub buffers: Vec<Option<EventBuffer<Msg>>>,
+    pub slots: Vec<Option<EventSlot<Msg>>>,
+    pub sources: Vec<EventSource<Msg>>,
+    pub qsources: Vec<QuerySource<Msg, Reply>>,
+    pub drv_keys: Vec<Option<(ActionKey, u64)>>,
+    pub drv_autos: Vec<Option<(AutoActionKey, u64)>>,
+}
+
+/// Builds and initialises a simulation for harnesses that drive it themselves
+/// (threaded workloads). Returns the handles and the shared state.
+pub fn build_and_init(spec: &Arc<Spec>, exec: &Exec) -> Result<(Built, Arc<Shared>), String> {
+    rec::reset(&exec.cfg);
+    let ledger = Arc::new(Ledger::default());
+    let sh = Arc::new(Shared {
+        spec: spec.clone(),
+        ledger,
+        gates: Gates::new(8),
+        busy: (0..spec.nodes.len()).map(|_| AtomicBool::new(false)).collect(),
+        inits: (0..spec.nodes.len()).map(|_| AtomicU64::new(0)).collect(),
+    });
+    let names_ok = Arc::new(AtomicBool::new(true));
+    let (init, mut built) = build(spec, exec, &sh, &names_ok);
+    match init.init(from_ns(spec.start)) {
+        Ok((simu, sched)) => {
+            built.simu = Some(simu);
+            built.scheduler = Some(sched);
+            Ok((built, sh))
+        }
+        Err(e) => Err(fmt_exec_error(&e)),
+    }
+}
+
+impl Shared {
+    pub fn new_msg(&self, uid: u64, kind: u8, ttl: u8) -> Msg {
+        Msg { uid, kind, ttl, tok: Tok::new(&self.ledger) }
+    }
 }
 
 fn connect_out(out: &mut Output<Msg>, ci: usize, c: &Conn, addrs: &[Address<Node>], bufs: &[Option<EventBuffer<Msg>>], slots: &[Option<EventSlot<Msg>>]) {
